@@ -370,8 +370,8 @@ def parse_template(path, units_dir):
             i += 1
             while not lines[i].startswith('//@end'):
                 if lines[i].startswith('//@subst'):
-                    m = re.search(r'count=(\d+|any)', lines[i])
-                    cnt = (0 if m.group(1) == 'any' else int(m.group(1))) if m else 1
+                    m = re.search(r'count=(\d+|any|opt)', lines[i])
+                    cnt = (0 if m.group(1) == 'any' else -1 if m.group(1) == 'opt' else int(m.group(1))) if m else 1
                     i += 2
                     old, new, tgt = [], [], None
                     tgt = old
@@ -420,8 +420,8 @@ def parse_template(path, units_dir):
                 elif ln.startswith('//@loop '):
                     n = int(ln.split()[1]); cur = b.loops.setdefault(n, [])
                 elif ln.startswith('//@subst'):
-                    m = re.search(r'count=(\d+|any)', ln)
-                    cnt = (0 if m.group(1) == 'any' else int(m.group(1))) if m else 1
+                    m = re.search(r'count=(\d+|any|opt)', ln)
+                    cnt = (0 if m.group(1) == 'any' else -1 if m.group(1) == 'opt' else int(m.group(1))) if m else 1
                     i += 1
                     if lines[i].strip() != '<<<':
                         raise ExtractError('%s: subst needs <<<' % path)
@@ -610,6 +610,17 @@ def extract_block(b: Block, snapshot: str, canary=False):
             text = text.replace(old, new)
             if c:
                 fired['subst'] = fired.get('subst', 0) + c
+            continue
+        if cnt == -1:
+            # count=opt: a site-specific rewrite (typing a closure, naming a stand-in) expected once. When the site is gone -- the code was
+            # refactored -- the function is verified as it is; if its proof then fails the answer is UNDECIDED (part of the proof script
+            # did not apply), never a violation (recorded as subst_skipped)
+            if c == 1:
+                text = text.replace(old, new); fired['subst'] = fired.get('subst', 0) + 1
+            elif c == 0:
+                fired['subst_skipped'] = fired.get('subst_skipped', 0) + 1
+            else:
+                raise ExtractError('subst anchor in %s::%s occurs %d times (expected at most 1): %r' % (b.file, b.fn, c, old[:80]))
             continue
         if c != cnt:
             if os.environ.get('VERIF_DEBUG'):
